@@ -3,6 +3,8 @@ pub mod comp_deque;
 pub mod comp_sketch;
 pub mod engine;
 pub mod exec;
+pub mod fuzz_entry;
+pub mod fuzzdec;
 pub mod gen;
 pub mod sched;
 pub mod stress;
@@ -19,10 +21,14 @@ pub fn extra_engines(prop: &str, thorough: bool) -> Vec<sup::EnginePlan> {
     let mut v = Vec::new();
     let t = thorough;
     if matches!(prop, "C02" | "C03" | "C04" | "C07" | "C08" | "C09" | "C10" | "C11") {
-        v.push(sup::EnginePlan { engine: "sched", workers: 16, cases_per_worker: if t { 12000 } else { 1200 }, timeout_s: if t { 2400 } else { 600 } });
+        let wd = if prop == "C09" { if t { 600 } else { 120 } } else if t { 2400 } else { 600 };
+        v.push(sup::EnginePlan { engine: "sched", workers: 16, cases_per_worker: if t { 12000 } else { 1200 }, timeout_s: wd });
     }
     if matches!(prop, "C02" | "C04" | "C16") {
         v.push(sup::EnginePlan { engine: "stress", workers: 4, cases_per_worker: 1, timeout_s: if t { 1800 } else { 600 } });
+    }
+    if t && matches!(prop, "C01" | "C03" | "C04" | "C05" | "C06" | "C07" | "C08" | "C10" | "C11" | "C12" | "C13" | "C14" | "C16") {
+        v.push(sup::EnginePlan { engine: "fuzz", workers: 12, cases_per_worker: 30000, timeout_s: 2400 });
     }
     if prop == "C17" {
         v.push(sup::EnginePlan { engine: "cfg", workers: 16, cases_per_worker: if t { 6000 } else { 700 }, timeout_s: if t { 1500 } else { 400 } });
@@ -46,6 +52,7 @@ pub fn rule_for(prop: &str, engine: &str) -> String {
             }
         }
         "sketch" => comp_sketch::RULE.to_string(),
+        "fuzz" => format!("coverage-guided libFuzzer campaigns (AddressSanitizer and debug assertions on) over byte strings decoded into the same Case values; the same interpreter and oracle run inside the target; fixed -runs per worker; non-trivial by the rule of the sequential/component engine; distinct counted per worker and summed ({})", gen::rule_text(prop)),
         "cfg" => cfg_engine::RULE.to_string(),
         "deque" => comp_deque::RULE.to_string(),
         "sched" => sched::RULE.to_string(),
